@@ -172,12 +172,69 @@ def check_stream(ctx, kind, data, desc, plan, quick):
             good = False
             if len(ctx.violations) >= 12:
                 return
+    if good:
+        good = faulted_attempts(ctx, kind, what, clean, data, base, quick)
     if good and n <= 30000:
         cuts = sorted(by_cut)
         pick = cuts if len(cuts) <= (60 if quick else 400) else sorted(ctx.rng.sample(cuts, 60 if quick else 400))
         model_prefix_diff(ctx, what, f.get("lay", "-"), data, pick, by_cut)
         if len(ctx.cov["samples"]) < 3 and len(hexs) < 700:
             ctx.sample({"kind": kind, "stream_hex": hexs, "clean": fl.strip_report(clean)})
+
+
+def faulted_attempts(ctx, kind, what, clean, data, base, quick, slicer=None, n_scripts=None, cut_lo=1):
+    """a render attempt on a prefix that FAILS for an outside reason (allocation refused from the k-th
+    request on, hook H1) must not change the final result either: whatever the attempt kept (caches,
+    parsed sections) is not allowed to come from a failed parse"""
+    rng = ctx.rng
+    n = len(data)
+    slicer = slicer or (lambda a, b: f"push:{fl.hx(data[a:b])}")
+    scripts = []
+    for _ in range(n_scripts or (10 if quick else 60)):
+        if n < 3:
+            break
+        cs = sorted(set(rng.randint(cut_lo, n - 1) for _ in range(rng.randint(1, 3))))
+        ops, prev = [], 0
+        for c in cs:
+            ops += [slicer(prev, c), f"ff:{rng.choice([0, 1, 2, 3, 5, 8, 13, 21, 40, 80, 160])}", "loading", "ffoff"]
+            if rng.random() < 0.4:
+                ops.append("loading")
+            prev = c
+        ops += [slicer(prev, n), "finish"]
+        scripts.append((cs, "script " + " ".join(ops)))
+    outs = run_lines_robust([fl.H(ctx)], [s for _, s in scripts], per_line_timeout=120)
+    ok = True
+    for (cs, sc), o in zip(scripts, outs):
+        parts = (o or "crash").split(" | ")
+        ops = sc.split()[1:]
+        ctx.case(("faulted", what, tuple(cs), sc.count("ff:")), nontrivial=True)
+        replay = dict(base, script=sc if len(sc) < 20000 else sc[:20000] + "...", cuts=cs,
+                      clean_report=fl.strip_report(clean)[:500], how="echo '<script>' | harness/target/debug/c09")
+        if len(parts) != len(ops):
+            ctx.violation("decoder-crashed-or-hung", (o or "crash")[:300], replay, key="crash-faulted:" + kind)
+            ok = False
+            continue
+        bad = next((p_ for p_ in parts if p_.startswith("panic")), None)
+        if bad:
+            ctx.violation("panic-in-a-failed-render-attempt", bad[:300], replay, key=fl.panic_key(bad))
+            ok = False
+            continue
+        for o_, p_ in zip(ops, parts):
+            if o_ == "loading":
+                ctx.count("faulted-loading:" + (p_.split()[0] if p_ else "?")[:30])
+        # after an injected failure a later render may still fail (C08 allows that); what it may not do
+        # is succeed with other samples, and nothing else of the report may change
+        a, b = fl.fields(fl.strip_report(clean)), fl.fields(fl.strip_report(parts[-1]))
+        ra, rb = a.get("r", "-").split(","), b.get("r", "-").split(",")
+        r_ok = len(ra) == len(rb) and all(y == x or y.startswith("err-") or y == "needmore" for x, y in zip(ra, rb))
+        if any(y != x for x, y in zip(ra, rb)):
+            ctx.count("faulted-final:a-keyframe-fails-after-the-failed-attempt")
+        diff = sorted(k for k in set(a) | set(b) if a.get(k) != b.get(k) and k != "r")
+        if diff or not r_ok:
+            ctx.violation("final-result-changed-by-a-failed-render-attempt", {"fields": diff + ([] if r_ok else ["r"]), "got": parts[-1][:400]},
+                          replay, key="final-faulted:" + ",".join(diff + ([] if r_ok else ["r"])))
+            ok = False
+    return ok
 
 
 def check_fixture(ctx, quick):
@@ -211,6 +268,8 @@ def check_fixture(ctx, quick):
     ctx.count("streams:fixture")
     for (meta, s), o in zip(scr, outs):
         judge(ctx, "fixture", "fixture", clean, f["hdr"].split("/")[0], s, meta, o, {"file": path})
+    faulted_attempts(ctx, "fixture", "fixture", clean, data, {"file": path}, quick,
+                     slicer=lambda a, b: f"pushf:{path}:{a}:{b}", n_scripts=16 if quick else 120, cut_lo=foff[0])
 
 
 def run_corpus(ctx):
